@@ -365,6 +365,7 @@ impl Property for C02 {
             depth_first: sc.depth,
             sorted: sc.sorted,
         };
+        crate::find::prepare_side_files(&find, &root);
         let mut rw = RefWalk::default();
         if find.starts_via_file {
             rep.probe("starting_points_through_files0_from");
